@@ -303,3 +303,76 @@ Example C02_simulation_nonvacuous :
 Proof.
   cbv zeta. split; [repeat constructor; simpl; intuition discriminate|]. split; vm_compute; reflexivity.
 Qed.
+
+(* ---- ONE SIMULATED DECISION WITH FILTER-RESTRICTED CHOICES ----------------------------------------------------------------- *)
+From LCM Require Import Spec.Layout Proofs.C01_Sparse Proofs.C02_SparseDecision.
+(* The rows of the data space are the stored (agent, restricted-choice combination) pairs (create_data_scs: the agents'      *)
+(* states repeated, the sparse choice product tiled, masked by the filters), one column per sparse variable (restricted        *)
+(* states, restricted choices, free discrete states) and per continuous state; the segments group the rows by agent (C08).    *)
+(* The regenerated compute_ccv_policy / u_and_f (rank axis + indexer) per row as above, the regenerated                         *)
+(* _calculate_discrete_argmax with choice axes AND segments: dense arg-max per row, then segment_argmax over the rows of        *)
+(* every agent.  For an agent whose rows are exactly its filter-passing restricted-choice combinations:                         *)
+(*  (1) the reported value is the specification's value_at of the agent's state (maximum over ALL admissible choices,           *)
+(*      restricted, dense discrete and continuous);                                                                              *)
+(*  (2) unless that is -inf, the chosen row is a row of the agent, and its restricted choices together with the dense and       *)
+(*      continuous choices read at that row are admissible and attain the reported value.                                       *)
+Theorem C02_simulated_decision_with_filtered_choices_is_a_feasible_maximiser :
+  forall (m : model) (p : params) (t : nat) (F : list nat -> Q) (rs rc dst dch cst cch : list (string * grid))
+         (isr : string -> bool) (remaining : list (list nat)),
+  Permutation (rc ++ dch ++ cch) (choices m) -> NoDup (map fst (choices m)) ->
+  NoDup (map fst (rs ++ rc ++ dst ++ cst ++ dch ++ cch) ++ [period_name]) ->
+  NoDup (map fst (states m)) -> grids_valid (states m) ->
+  forall (nrows : nat) (colsA colsC : list (list Q)),
+  length colsA = length ((rs ++ rc) ++ dst) -> length colsC = length cst ->
+  Forall (fun c : list Q => length c = nrows) (colsA ++ colsC) -> (colsA ++ colsC)%list <> [] ->
+  let uf := uf_code_sparse m p t F rs rc dst dch cst cch isr remaining in
+  (forall row dc cc, (row < nrows)%nat -> in_bounds (sizes dch) dc -> in_bounds (sizes cch) cc ->
+     evaluates_at_ix m p F isr remaining (env_of_vals6 t rs rc dst dch cst cch (agent_vals dch cch colsA colsC row dc cc))) ->
+  forall (ids : list nat) (num : nat), length ids = nrows ->
+  forall (a : nat) (vRs vDst vCst : list Q) (keep : list nat -> bool) (ci_of : nat -> list nat),
+  (a < num)%nat -> length vRs = length rs -> length vDst = length dst -> length vCst = length cst ->
+  (forall row, In row (rows_of_segment ids a) ->
+     in_bounds (sizes rc) (ci_of row) /\ row_is rc colsA colsC vRs vDst vCst row (ci_of row)) ->
+  (forall ci, in_bounds (sizes rc) ci -> keep ci = true -> exists row, In row (rows_of_segment ids a) /\ ci_of row = ci) ->
+  (forall ci dc cidx, in_bounds (sizes rc) ci -> in_bounds (sizes dch) dc -> in_bounds (sizes cch) cidx -> keep ci = false ->
+     feasible m p (sigma_agent rs dst cst vRs vDst vCst ++ (env_of_idx rc ci ++ env_of_idx dch dc ++ env_of_idx cch cidx) ++ [(period_name, Qofnat t)])%list = false) ->
+  rows_of_segment ids a <> [] ->
+  let vnext := fun idx => VFin (F idx) in
+  let sigma := sigma_agent rs dst cst vRs vDst vCst in
+  let V := value_agent rs rc dst dch cst cch uf colsA colsC ids num a in
+  veq V (value_at m p t false vnext sigma) /\
+  (V <> VNegInf ->
+   let row := row_agent rs rc dst dch cst cch uf colsA colsC ids num a in
+   let ci := ci_of row in
+   let red := red_g ((rs ++ rc) ++ dst) dch cst cch uf colsA colsC row in
+   let cidx := unravel (sizes cch) (cont_argmax_g ((rs ++ rc) ++ dst) dch cst cch uf colsA colsC row) in
+   In row (rows_of_segment ids a) /\ in_bounds (sizes rc) ci /\ in_bounds (sizes dch) red /\ in_bounds (sizes cch) cidx /\
+   feasible m p (sigma ++ (env_of_idx rc ci ++ env_of_idx dch red ++ env_of_idx cch cidx) ++ [(period_name, Qofnat t)])%list = true /\
+   veq (objective m p false vnext (sigma ++ (env_of_idx rc ci ++ env_of_idx dch red ++ env_of_idx cch cidx) ++ [(period_name, Qofnat t)])%list) V).
+Proof. exact sparse_decision_of_the_code_is_optimal. Qed.
+Print Assumptions C02_simulated_decision_with_filtered_choices_is_a_feasible_maximiser.
+
+(* non-vacuity: the health-filter model; agent 0 (bad health) has one row (not working), agent 1 two; both sides computed *)
+Definition fsp_model : model :=
+  mkModel 3 [("h", GDisc 2); ("w", GLin 0 2 3)] [("d", GDisc 2); ("c", GLin 0 2 5)]
+    [mkUfun "utility" ["c"; "w"; "h"; "d"] (ESub (EAdd (EVar "c") (EMul (EVar "w") (EVar "h"))) (EMul (EConst (1#4)) (EVar "d"))) false;
+     mkUfun "next_w" ["w"; "c"; "d"] (EAdd (ESub (EVar "w") (EVar "c")) (EMul (EConst (1#2)) (EVar "d"))) false;
+     mkUfun "next_h" ["h"] (EConst 0) true;
+     mkUfun "health_filter" ["h"; "d"] (ELe (EVar "d") (EVar "h")) false;
+     mkUfun "budget_constraint" ["c"; "w"; "d"] (ELe (EVar "c") (EAdd (EVar "w") (EMul (EConst (1#2)) (EVar "d")))) false].
+Example C02_sparse_decision_nonvacuous :
+  let RS := [("h", GDisc 2)] in let RC := [("d", GDisc 2)] in let CST := [("w", GLin 0 2 3)] in let CCH := [("c", GLin 0 2 5)] in
+  let uf := uf_code_sparse fsp_model dec_params 0 dec_table RS RC [] [] CST CCH (is_restricted fsp_model) [[0%nat]; [1%nat]] in
+  let cA : list (list Q) := [[0; 1; 1]; [0; 0; 1]] in let cC : list (list Q) := [[1 # 3; 3 # 2; 3 # 2]] in
+  restricted_states fsp_model = RS /\ restricted_choices fsp_model = RC /\
+  forallb (fun row => forallb (fun cc =>
+     evaluates_at_ixb fsp_model dec_params dec_table (is_restricted fsp_model) [[0%nat]; [1%nat]]
+       (env_of_vals6 0 RS RC [] [] CST CCH (agent_vals [] CCH cA cC row [] cc))) (indices [5%nat])) [0; 1; 2]%nat = true /\
+  map (fun a => (vred (value_agent RS RC [] [] CST CCH uf cA cC [0; 1; 1]%nat 2 a), row_agent RS RC [] [] CST CCH uf cA cC [0; 1; 1]%nat 2 a,
+                 unravel [5%nat] (cont_argmax_g ((RS ++ RC) ++ []) [] CST CCH uf cA cC (row_agent RS RC [] [] CST CCH uf cA cC [0; 1; 1]%nat 2 a))))
+      [0; 1]%nat
+  = [(VFin (33 # 40), 0%nat, [0%nat]); (VFin (37 # 10), 2%nat, [4%nat])] /\
+  [vred (value_at fsp_model dec_params 0 false (fun i => VFin (dec_table i)) (sigma_agent RS [] CST [0] [] [1 # 3]));
+   vred (value_at fsp_model dec_params 0 false (fun i => VFin (dec_table i)) (sigma_agent RS [] CST [1] [] [3 # 2]))]
+  = [VFin (33 # 40); VFin (37 # 10)].
+Proof. cbv zeta. repeat split; vm_compute; reflexivity. Qed.
